@@ -431,7 +431,7 @@ type VerifCMObs struct {
 	Decision     int  // makeTrafficDecision's decision (Decide only; -1 for Check)
 	RetNil       bool // makeTrafficDecision returned no hostinfo (Decide only)
 	PendingAfter bool
-	Timer        int // 0 not re-armed, 1 re-armed with the check interval, 2 with the pending-deletion interval, 3 anything else
+	Timer        int  // 0 not re-armed, 1 re-armed with the check interval, 2 with the pending-deletion interval, 3 anything else
 	PunchOne     bool // exactly one punch, to the tunnel's current remote
 	PunchAll     bool // one punch to every known remote (and there are at least two)
 	PunchN       int
